@@ -80,7 +80,9 @@ def _is_copied(expr, field_names, deep_param='deep_copy_buffers'):
         a = _is_copied(expr.body, field_names)
         b = _is_copied(expr.orelse, field_names)
         if deep_param in ast.unparse(expr.test):
-            return (a[0] or b[0]), True
+            # sharing under deep_copy_buffers=False is a licence for scratch buffers only: a field that carries state must be duplicated on both arms
+            scratch = all('buffer' in f.lower() for f in field_names) if field_names else False
+            return ((a[0] or b[0]) if scratch else (a[0] and b[0])), True
         return (a[0] and b[0]), False
     if is_self_attr(expr) and expr.attr in field_names:
         return False, False
